@@ -12,7 +12,7 @@ one() {
   cs=$(python3-vt tools/checks_for_patch.py $f 2>/dev/null)
   if [ -z "$cs" ]; then r="no check has this function in its plan"; else
     res=""
-    d=$(mktemp -d /tmp/hl-XXXX); cp -r /repo/ECAgent $d/ECAgent; (cd $d && patch -s -p1 < $(readlink -f $f)) || res="patch failed"
+    d=$(mktemp -d /tmp/hl-XXXX); cp -r /repo/ECAgent $d/ECAgent; af=$(readlink -f $f); (cd $d && patch -s -p1 -i "$af") || res="patch failed"
     for c in $cs; do res="$res
 $(VERIF_OUTDIR=$d/outdir VERIF_REPO=$d ./check $c --tier quick 2>&1 | grep -E "VIOLATION|UNDECIDED|CHECKER|DEGRADED|failed-obligation|^C[0-9]+:")"; done
     rm -rf $d
